@@ -45,3 +45,6 @@ func EncodeV2(t types.V2Transaction) string { return encode(t) }
 
 // DeepCopyTxn copies a v1 transaction through its encoding.
 func DeepCopyTxn(t types.Transaction) types.Transaction { return deepCopyTxn(t) }
+
+// EncodeContract encodes a v2 contract.
+func EncodeContract(fc types.V2FileContract) string { return encode(fc) }
